@@ -3,7 +3,7 @@ CONSTANTS
  MaxN = 4
  PairN = {2, 3}
  InterN = {4, 5}
-  WideN = {5, 6}
+  WideN = {5}
  TripleN = {3}
 INVARIANT UnitaryColumns
 CHECK_DEADLOCK FALSE
